@@ -58,7 +58,11 @@ class Gen:
         """explicit ID: biased to the shapes C04 names (0, non-increasing, int-like floats,
         digit strings) and sometimes already present."""
         if model.edges and self.r.random() < p_present:
-            return self.r.choice(list(model.edges))
+            x = self.r.choice(list(model.edges))
+            if not (dh and isinstance(x, tuple)):
+                return x
+        # (tuple edge IDs are never sent through DiHypergraph bulk formats 2/4: the format
+        # sniffing reads an iterable second element as a head -- documented ambiguity)
         u = [x for x in self.edge_u() if not (dh and isinstance(x, tuple))]
         return self.r.choice(u)
 
@@ -71,7 +75,10 @@ class Gen:
                 out.append(n)
         return out
 
-    def attr(self, p=0.35, nested=False):
+    def attr(self, p=0.35, single=False):
+        # nested mutable values only where the dict belongs to exactly one node / edge: a
+        # value passed as **attr of a bulk call is (legitimately) shared by all its edges
+        nested = single and self.cfg.get("nested_attrs", False)
         if self.r.random() > p:
             return {}
         d = {}
@@ -147,13 +154,13 @@ class Gen:
 
     # ---------------------------------------------------------- shared ops
     def g_add_node(self, name, m, op):
-        return self.rec(name, op, {"node": self.pick_node(m, 0.3), "attr": self.attr()})
+        return self.rec(name, op, {"node": self.pick_node(m, 0.3), "attr": self.attr(single=True)})
 
     def g_add_nodes_from(self, name, m, op):
         items = []
         for _ in range(self.r.randint(0, 3)):
             n = self.pick_node(m, 0.3)
-            items.append([n, self.attr(0.8) if self.r.random() < 0.4 else None])
+            items.append([n, self.attr(0.8, single=True) if self.r.random() < 0.4 else None])
         fault = self.maybe_fault(["none_node", "unhashable_node", "dying"], len(items))
         return self.rec(name, op, {"items": items, "attr": self.attr(), "stream": self.stream()}, fault)
 
@@ -217,7 +224,8 @@ class Gen:
         if idx == 0:
             pass
         fault = self.maybe_fault(["none_member", "unhashable_member"])
-        return self.rec(name, op, {"members": mem, "idx": idx, "attr": self.attr(), "mtype": self.mtype()}, fault)
+        return self.rec(name, op, {"members": mem, "idx": idx, "attr": self.attr(single=True),
+                                   "mtype": self.mtype()}, fault)
 
     def _bulk_items(self, m, fmt, dh=False, lo=1):
         n = self.r.randint(0 if self.r.random() < 0.08 else 1, 4)
@@ -234,7 +242,7 @@ class Gen:
                 if self.r.random() < 0.15 and used:
                     idx = self.r.choice(used)  # duplicate ID inside one bunch
                 used.append(idx)
-            a = self.attr(0.7) if fmt in (3, 4) else None
+            a = self.attr(0.7, single=True) if fmt in (3, 4) else None
             items.append([mem, idx, a])
         if fmt in (2, 4) and len(items) > 1 and self.r.random() < 0.4:
             # non-increasing explicit IDs inside one bulk call
@@ -325,7 +333,7 @@ class Gen:
             e = self.r.choice(list(m.edges))
             mem = csort(m.edges[e])
             if mem:
-                return self.rec(name, "add_edge", {"members": mem, "idx": None, "attr": self.attr(0.6),
+                return self.rec(name, "add_edge", {"members": mem, "idx": None, "attr": self.attr(0.6, single=True),
                                                    "mtype": "list"})
         return self.g_H_add_edge(name, m, "add_edge")
 
@@ -339,7 +347,7 @@ class Gen:
         fault = self.maybe_fault(["none_member", "unhashable_member"])
         if fault:
             fault["item"] = self.r.randrange(2)
-        return self.rec(name, op, {"tail": tail, "head": head, "idx": idx, "attr": self.attr(),
+        return self.rec(name, op, {"tail": tail, "head": head, "idx": idx, "attr": self.attr(single=True),
                                    "mtype": self.mtype(), "outer": self.r.choice(["tuple", "list"])}, fault)
 
     def g_DH_add_edges_from(self, name, m, op):
@@ -383,7 +391,7 @@ class Gen:
         idx = self.new_idx(m) if self.r.random() < 0.4 else None
         fault = self.maybe_fault(["none_member", "unhashable_member"])
         return self.rec(name, op, {"members": self._simplex(m, allow_empty=True), "idx": idx,
-                                   "attr": self.attr(), "mtype": self.mtype()}, fault)
+                                   "attr": self.attr(single=True), "mtype": self.mtype()}, fault)
 
     def g_SC_alias_add_edge(self, name, m, op):
         return self.rec(name, op, {"members": self._simplex(m), "attr": self.attr(), "mtype": "list"})
@@ -399,7 +407,7 @@ class Gen:
                 if self.r.random() < 0.15 and used:
                     idx = self.r.choice(used)
                 used.append(idx)
-            items.append([mem, idx, self.attr(0.7) if fmt in (3, 4) else None])
+            items.append([mem, idx, self.attr(0.7, single=True) if fmt in (3, 4) else None])
         return items
 
     def g_SC_add_simplices_from(self, name, m, op):
